@@ -106,7 +106,7 @@ def check_case(case, ctx):
 
 
 def reach(counters, tier, info):
-    k = 1 if tier == "quick" else 12
+    k = 0.5 if tier == "quick" else 12
     out = []
     for name, key, need in [("returned rankings checked", "rankings_checked", 1200 * k),
                             ("single moves priced", "moves_priced", 100000 * k),
